@@ -86,29 +86,19 @@ class EventCollection(List[EDXMLEvent]):
         Returns:
             bool
         """
-        if len(self) != len(other):
-            return False
-
         if self._ontology != other._ontology:
             return False
 
-        self_dict = self.create_dict_by_hash()
-        other_dict = other.create_dict_by_hash()
+        # Compare the logical events, which are obtained by merging
+        # all event instances that share a sticky hash.
+        self_dict = self.resolve_collisions().create_dict_by_hash()
+        other_dict = other.resolve_collisions().create_dict_by_hash()
+
+        if self_dict.keys() != other_dict.keys():
+            return False
 
         for hash_string, events in self_dict.items():
-            if hash_string not in other_dict:
-                return False
-
-            other_events = other_dict[hash_string]
-            if len(events) > 1:
-                events = events.resolve_collisions()
-            if len(other_events) > 1:
-                other_events = other_events.resolve_collisions()
-
-            event = events.pop()
-            other_event = other_events.pop()
-
-            if event != other_event:
+            if events[0] != other_dict[hash_string][0]:
                 return False
 
         return True
